@@ -15,7 +15,7 @@ import common as C
 import c18run as R
 
 TARGETS = ["Gen/GuardTables.vo", "Model/Outcome.vo", "Model/ReaderGuards.vo", "Spec/RobustSpec.vo", "Model/GuardCases.vo", "Model/GuardCueCases.vo",
-           "Proofs/C18/SpecLink.vo", "Proofs/C18/Srt.vo", "Proofs/C18/Vtt.vo", "Proofs/C18/Scc.vo", "Proofs/C18/Stl.vo", "Proofs/C18/Statements.vo", "Proofs/C18/CueText.vo"]
+           "Proofs/C18/SpecLink.vo", "Proofs/C18/Srt.vo", "Proofs/C18/Vtt.vo", "Proofs/C18/Scc.vo", "Proofs/C18/Stl.vo", "Proofs/C18/Statements.vo", "Proofs/C18/CueText.vo", "Proofs/C18/FullModels.vo"]
 
 M_CODE = {"ok": 0, "XmlParseError": 10, "ValueError": 11, "StructError": 12, "UnicodeDecodeError": 13, "AttributeError": 20, "TypeError": 21,
           "IndexError": 22, "KeyError": 23, "UnboundLocalError": 24, "AssertionError": 25, "RecursionError": 26, "ZeroDivisionError": 27,
@@ -27,7 +27,8 @@ S_CODE = {"XmlParseError": 1, "UnicodeDecodeError": 2, "StructError": 3, "ValueE
 def build_and_prove(run, thorough):
     import gen_tables
     # VttTables: tables of C11's model of the WebVTT cue-text parser, which Model/GuardCueCases.v evaluates (read-only use)
-    changed, errors = gen_tables.generate({"GuardTables", "VttTables"})
+    # all tables: the cone of Proofs/C18/FullModels.v contains the complete reader models of C04, C08, C09, C10, C11
+    changed, errors = gen_tables.generate(None)
     if errors:
         run.violation("table translator failed closed: " + "; ".join(errors), dict(kind="translator", errors=errors), False)
         return False
